@@ -4,12 +4,16 @@ import vlib
 
 TARGETS = ["Base/Num.vo", "Base/Corr.vo", "C16/Model.vo", "C16/Spec.vo", "C16/ProofsMax.vo", "C16/ProofsEM.vo",
            "C16/ProofsModel.vo", "C16/Corr.vo", "C16/ProofsCorr.vo", "C16/ModelHmm.vo", "C16/ProofsBW.vo",
-           "C16/ProofsBW2.vo", "C16/ProofsBW3.vo", "C16/ProofsClamp.vo", "C16/Corr2.vo", "C16/SpecTest.vo", "C16/Props.vo"]
+           "C16/ProofsBW2.vo", "C16/ProofsBW3.vo", "C16/ProofsClamp.vo", "C16/Corr2.vo", "C16/ModelVec.vo", "C16/Corr3.vo",
+           "C16/SpecTest.vo", "C16/Props.vo"]
 PROPS = ["C16/Props.v"]
 CORPUS = os.path.join(vlib.ROOT, "corpus/C16/corpus.jsonl")
 CORPUS2 = os.path.join(vlib.ROOT, "corpus/C16/corpus2.jsonl")
 LAG_WITNESS = os.path.join(vlib.ROOT, "corpus/C16/lag_witness.json")
 PROPOSED = os.path.join(vlib.ROOT, "corpus/C16/known_findings_proposed.json")
+CORPUS3 = os.path.join(vlib.ROOT, "corpus/C16/corpus3.jsonl")
+VCLAMP_WITNESS = os.path.join(vlib.ROOT, "corpus/C16/vclamp_witness.json")
+KINDS3 = ("vnormal", "sid", "siid", "negbin", "logreg", "emnormal")
 PARTIAL = ("Theorems are over exact real arithmetic (Coq Reals) about the hand-written models coq/C16/Model.v / ModelHmm.v with ONE "
            "worker thread; the step to binary64 is bounded per sampled case only (bit-exact replay of the normal estimator, 1e-9 "
            "tolerance decided in Q for the log-scale families, the EM replay and the Baum-Welch replay; exp values through an "
@@ -39,41 +43,64 @@ def known_case(case):
 
 
 def corr(ctx, binary, n):
-    for old in glob.glob(os.path.join(ctx.dir, "r2_*.v")) + glob.glob(os.path.join(ctx.dir, "cert_r2_*.v")):
-        os.remove(old)
+    for pat in ("r2_*.v", "cert_r2_*.v", "r3_*.v", "cert_r3_*.v", "grad_r3_*.v"):
+        for old in glob.glob(os.path.join(ctx.dir, pat)):
+            os.remove(old)
     rc, out = vlib.run_harness(ctx, binary, n, extra=CORPUS)
     n2 = 20 if ctx.tier == "quick" else 400
     rc2, out2 = vlib.run_harness(ctx, binary, n2, extra="round2:" + CORPUS2)
-    if rc != 0 or rc2 != 0:
-        ctx.violation({"obligation": "C16 harness run", "log": (out if rc != 0 else out2)[-3000:]}, False,
+    n3 = 70 if ctx.tier == "quick" else 1200
+    rc3, out3 = vlib.run_harness(ctx, binary, n3, extra="round3:" + CORPUS3)
+    if rc != 0 or rc2 != 0 or rc3 != 0:
+        ctx.violation({"obligation": "C16 harness run", "log": (out if rc != 0 else out2 if rc2 != 0 else out3)[-3000:]}, False,
                       "harness failed on the implementation (crash while running the estimators)")
         return [], []
     meta = json.load(open(os.path.join(ctx.dir, "cases.meta.json")))
     vlib.merge_meta(ctx, meta)
     meta2 = json.load(open(os.path.join(ctx.dir, "r2.meta.json")))
     vlib.merge_meta(ctx, meta2)
+    meta3 = json.load(open(os.path.join(ctx.dir, "r3.meta.json")))
+    vlib.merge_meta(ctx, meta3)
     key = lambda p: int(p.rsplit("_", 1)[1][:-2])
     shards = sorted(glob.glob(os.path.join(ctx.dir, "cases_*.v")), key=key)
     shards2 = sorted(glob.glob(os.path.join(ctx.dir, "r2_*.v")), key=key)
+    shards3 = sorted(glob.glob(os.path.join(ctx.dir, "r3_*.v")), key=key)
     certs = sorted(glob.glob(os.path.join(ctx.dir, "cert_*.v")))
-    res = vlib.eval_shards(shards + shards2 + certs)
+    grads = sorted(glob.glob(os.path.join(ctx.dir, "grad_r3_*.v")), key=key)
+    entries = ([(p, "s1", k) for k, p in enumerate(shards)] + [(p, "s2", k) for k, p in enumerate(shards2)] +
+               [(p, "s3", k) for k, p in enumerate(shards3)] + [(p, "cert", 0) for p in certs] +
+               [(p, "grad", key(p)) for p in grads])
+    res = vlib.eval_shards([e[0] for e in entries])
     ctx.oblige(len(res), sum(1 for r in res if r["ok"]))
     cases = vlib.load_jsonl(os.path.join(ctx.dir, "cases.jsonl"))
     cases2 = vlib.load_jsonl(os.path.join(ctx.dir, "r2.jsonl"))
-    off2 = [0]
-    for z in meta2["shard_sizes"]:
-        off2.append(off2[-1] + z)
+    cases3 = vlib.load_jsonl(os.path.join(ctx.dir, "r3.jsonl"))
+
+    def offsets(sizes):
+        off = [0]
+        for z in sizes:
+            off.append(off[-1] + z)
+        return off
+    off2, off3 = offsets(meta2["shard_sizes"]), offsets(meta3["shard_sizes"])
     bad, known = [], []
-    for k, r in enumerate(res):
+    for (path, kind, k), r in zip(entries, res):
         if r["ok"]:
             continue
-        if r["mism"] is None or k >= len(shards) + len(shards2):
+        if kind == "grad":
+            # a gradient certificate failed: the logistic-regression cases of that shard are the suspects
+            ms = [c for c in cases3[off3[k]:off3[k + 1]] if c.get("kind") == "logreg"]
+            ctx.log("gradient certificate %s does not check (%d logistic-regression cases)" % (os.path.basename(path), len(ms)))
+            bad.extend(ms)
+            continue
+        if r["mism"] is None or kind == "cert":
             what = ("exp table entry not certified by Coq-Interval (Go's math.Exp or the harness disagrees with exp)"
-                    if k >= len(shards) + len(shards2) else "correspondence shard did not evaluate")
+                    if kind == "cert" else "correspondence shard did not evaluate")
             ctx.violation({"obligation": "shard " + os.path.basename(r["path"]), "coqc_error": r["error"]}, False, what)
             continue
-        if k >= len(shards):
-            ms = [cases2[off2[k - len(shards)] + i] for i in r["mism"]]
+        if kind == "s3":
+            ms = [cases3[off3[k] + i] for i in r["mism"]]
+        elif kind == "s2":
+            ms = [cases2[off2[k] + i] for i in r["mism"]]
         else:
             ms = [cases[k * meta["per_shard"] + i] for i in r["mism"]]
         for c in ms:
@@ -84,16 +111,20 @@ def corr(ctx, binary, n):
                 bad.append(c)
         if all(known_case(c) for c in ms):
             ctx.discharged += 1   # every mismatch of the shard is a recorded finding
-    ctx.log("correspondence: %d + %d (Baum-Welch) cases in %d shards (+%d exp-table certificates), %d mismatching, %d known" % (
-        len(cases), len(cases2), len(shards) + len(shards2), len(certs), len(bad), len(known)))
+    ctx.log("correspondence: %d + %d (Baum-Welch) + %d (round 3: vector normal, products, negative binomial, logistic regression, "
+            "normal-mixture EM) cases in %d shards (+%d exp-table certificates, %d gradient certificates), %d mismatching, %d known" % (
+        len(cases), len(cases2), len(cases3), len(shards) + len(shards2) + len(shards3), len(certs), len(grads), len(bad), len(known)))
     return bad, known
 
 
 def hunt(ctx, binary, bad):
     rp = os.path.join(ctx.dir, "hunt_in.json")
     lag = json.load(open(LAG_WITNESS)) if os.path.exists(LAG_WITNESS) else None
-    json.dump({"cases": [c for c in bad if c.get("kind") != "hmm"][:50],
-               "cases2": [c for c in bad if c.get("kind") == "hmm"][:20], "lag_witness": lag}, open(rp, "w"))
+    vcl = json.load(open(VCLAMP_WITNESS)) if os.path.exists(VCLAMP_WITNESS) else None
+    json.dump({"cases": [c for c in bad if c.get("kind") != "hmm" and c.get("kind") not in KINDS3][:50],
+               "cases2": [c for c in bad if c.get("kind") == "hmm"][:20],
+               "cases3": [c for c in bad if c.get("kind") in KINDS3][:40],
+               "lag_witness": lag, "vclamp_witness": vcl}, open(rp, "w"))
     n = 1500 if ctx.tier == "quick" else 20000
     rc, out = vlib.sh([binary, "--extra", "hunt", "--replay", rp, "--n", str(n), "--seed", str(ctx.seed),
                        "--out", ctx.dir], timeout=900, env=vlib.go_env())
@@ -129,6 +160,13 @@ def run(ctx):
         else:
             ctx.violation({"case": json.load(open(LAG_WITNESS)), "failure": h["lag"]}, True,
                           "EM hook reports the likelihood of the previous iteration's mixture: " + h["lag"])
+    if h.get("vclamp"):
+        vf = [f for f in findings() if f.get("match", {}).get("kind") == "vector_normal_diagonal_clamp"]
+        if vf:
+            ctx.known_finding(vf[0]["id"], vf[0]["what"])
+        else:
+            ctx.violation({"case": json.load(open(VCLAMP_WITNESS)), "failure": h["vclamp"]}, True,
+                          "vector NormalEstimator with an active SigmaMin clamp does not return the constrained maximiser: " + h["vclamp"])
     found = h.get("found") and not known_case(h.get("case", {}))
     if found:
         ctx.violation({"case": h["case"], "failure": h["failure"],
@@ -154,6 +192,9 @@ def replay(ctx, path):
         print("replay names a broken obligation, not an input: %s" % rp.get("obligation"))
         ok, failures = vlib.proof_stage(ctx, TARGETS, PROPS)
         return 0 if ok else 1
+    for pat in ("replay_*.v", "cert_replay_*.v"):
+        for old in glob.glob(os.path.join(ctx.dir, pat)):
+            os.remove(old)
     rc, out = vlib.sh([binary, "--replay", path, "--out", ctx.dir], env=vlib.go_env())
     res = vlib.eval_shards(sorted(glob.glob(os.path.join(ctx.dir, "replay_*.v")) + glob.glob(os.path.join(ctx.dir, "cert_replay_*.v"))))
     h = json.load(open(os.path.join(ctx.dir, "hunt.json")))
